@@ -74,6 +74,9 @@ func (f *in) Listen(onMsg func(msg []byte, milliseconds int32), conf drivers.Lis
 
 	f.last = time.Now()
 
+	// a new listening, after the previous one has been stopped
+	f.stopListening = false
+
 	stopFn = func() {
 		f.stopListening = true
 	}
